@@ -2,6 +2,7 @@
  * C19: iterator protocol on a generator built by its C constructor.
  * -DKIND=1 linear (n elements 0,1,..,n-1 as doubles: start 0, end n-1)
  * -DKIND=2 boundary (left, inter.., right = 10, 20, 30)
+ * -DKIND=3 factor with its default parameters (10 elements: 0, 10, 100, ...)
  * n symbolic 2..NMAX; K calls chosen symbolically from {value, advance, reset,
  * clone-and-switch}.  Model: position counter.  value() non-NULL iff pos < n and
  * equals the element the source denotes; advance at the end is reported, never a
@@ -25,6 +26,9 @@ static double expect(uint32_t n, uint32_t pos)
 {
 #if KIND == 1
 	(void) n; return (double) pos;
+#elif KIND == 3
+	/* default factor source: start 0, then base 10 multiplied by 10 per step */
+	{ double v = 10.0; uint32_t i; (void) n; if (!pos) return 0.0; for (i = 1; i < pos; i++) v *= 10.0; return v; }
 #else
 	return pos == 0 ? 10.0 : (pos < n - 1 ? 20.0 : 30.0);
 #endif
@@ -38,6 +42,9 @@ void harness(void)
 	int k, r;
 #if KIND == 1
 	mt = mpt_iterator_linear(n, 0.0, (double) (n - 1));
+#elif KIND == 3
+	n = 10;
+	mt = _mpt_iterator_factor(0);
 #else
 	mt = mpt_iterator_boundary(n, 10.0, 20.0, 30.0);
 #endif
